@@ -149,11 +149,11 @@ def main():
             "add_only": True,
         },
         "engines": [
-            {"name": "BC", "path": "vlib/engines/bc.py", "serves_properties": ["C06", "C10"], "kind_free_text": "real _KafkaBrokerClient / KafkaBootstrapProtocol on simulated time and transports (vlib/simnet.py) against a scripted peer, with a reference model of the request table; traces are JSON and replay without Hypothesis"},
+            {"name": "BC", "path": "vlib/engines/bc.py", "serves_properties": ["C06", "C10", "C11", "C20"], "kind_free_text": "real _KafkaBrokerClient / KafkaBootstrapProtocol on simulated time and transports (vlib/simnet.py) against a scripted peer, with a reference model of the request table; traces are JSON and replay without Hypothesis"},
             {"name": "CL", "path": "vlib/engines/cl.py", "serves_properties": ["C04", "C07", "C08", "C11", "C20"], "kind_free_text": "real KafkaClient on simulated time/transports against vlib/simkafka.py (stateful cluster model built on the independent protocol implementation); Hypothesis draws calls, scheduler choices and faults; traces replay without Hypothesis"},
-            {"name": "PROD", "path": "vlib/engines/prod.py", "serves_properties": ["C01", "C04", "C09", "C19"], "kind_free_text": "real Producer + KafkaClient on simulated time/transports against vlib/simkafka.py; acknowledgement ledger as ground truth; reference model of batching"},
-            {"name": "CONS", "path": "vlib/engines/cons.py", "serves_properties": ["C02", "C03", "C12", "C13", "C14"], "kind_free_text": "real Consumer + KafkaClient on simulated time/transports against vlib/simkafka.py (partition log, offset store, long-poll fetch); scripted processor; crash = drop consumer and client, keep the cluster"},
-            {"name": "GRP", "path": "vlib/engines/grp.py", "serves_properties": ["C15", "C16", "C17"], "kind_free_text": "real ConsumerGroup + KafkaClient on simulated time/transports against vlib/simkafka.py + vlib/simgroup.py (group coordinator model with session/rebalance timers, ghost members)"},
+            {"name": "PROD", "path": "vlib/engines/prod.py", "serves_properties": ["C01", "C04", "C08", "C09", "C18", "C19"], "kind_free_text": "real Producer + KafkaClient on simulated time/transports against vlib/simkafka.py; acknowledgement ledger as ground truth; reference model of batching"},
+            {"name": "CONS", "path": "vlib/engines/cons.py", "serves_properties": ["C02", "C03", "C08", "C12", "C13", "C14"], "kind_free_text": "real Consumer + KafkaClient on simulated time/transports against vlib/simkafka.py (partition log, offset store, long-poll fetch); scripted processor; crash = drop consumer and client, keep the cluster"},
+            {"name": "GRP", "path": "vlib/engines/grp.py", "serves_properties": ["C11", "C15", "C16", "C17"], "kind_free_text": "real ConsumerGroup + KafkaClient on simulated time/transports against vlib/simkafka.py + vlib/simgroup.py (group coordinator model with session/rebalance timers, ghost members)"},
             {"name": "structured", "path": "checks/", "serves_properties": ["C04", "C05", "C12", "C15", "C18"], "kind_free_text": "Hypothesis @given over composite strategies with an independent protocol implementation (vlib/refproto) or foreign implementation (JVM) as oracle"},
         ],
         "checks": checks,
